@@ -198,6 +198,8 @@ UNITS['c10'] = {
 UNITS['c03'] = {
     'template': 'contracts/c03.vrs',
     'mutants': [
+        ('concat_keeps_the_empty_seam_segment', 'self.path.pop();', '', ['C02.uri.append']),
+        ('concat_keeps_the_left_parameters', 'self.params = other_.params;', '', ['C02.uri.append']),
         ('duplicate_check_forgets_the_names', 'names.push(&p.name);', '', ['C03.path.duplicate_variable']),
         ('explicit_operation_id_ignored', 'if xfer.id.is_some() { return clone_opt_string(&xfer.id); }', '', ['C03.opid.xfer_id']),
         ('variable_segments_all_labelled_alike', 'spec::UriSegment::Variable(t) => str_to_lowercase(t.name.as_ref()),', 'spec::UriSegment::Variable(t) => root_label(),', ['C03.opid.uri_segment_label']),
